@@ -2441,6 +2441,12 @@ func (r *stack) pop() (slice any, ok bool) {
 	r.lock()
 	defer r.unlock()
 
+	// nothing to pop (anymore): the emptiness test made by the
+	// caller happened before the lock was acquired.
+	if r.ulen() == 0 {
+		return
+	}
+
 	var idx int
 
 	if r.isFIFO() {
